@@ -31,7 +31,8 @@ fn envn(k: &str, d: usize) -> usize {
 struct Shared {
     round: AtomicUsize,      // last round announced by the parker
     done: AtomicBool,        // the parker is gone
-    cancel_issued: AtomicBool,
+    cancel_issued: AtomicBool, // the cancel call has started
+    cancel_done: AtomicBool,   // the cancel call has returned
     unparks: Vec<AtomicUsize>, // per round: unparks issued
     gens: Vec<AtomicUsize>,    // per round: generation of the blocker parked on (0 = the coroutine's own Park)
     blk: Vec<Mutex<Option<Arc<may::sync::Blocker>>>>, // per round: the blocker parked on (blk / thr mode)
@@ -178,7 +179,7 @@ fn parker_body(sh: Arc<Shared>, mode: Mode, tos: Vec<Option<u64>>, selfun: Vec<b
     }
     if cancel_round != 0 && mode != Mode::Thr {
         // a cancelled coroutine never gets past its next park
-        while !sh.cancel_issued.load(Ordering::SeqCst) {
+        while !sh.cancel_done.load(Ordering::SeqCst) {
             may::coroutine::yield_now();
         }
         if mode == Mode::Blk {
@@ -277,6 +278,7 @@ fn main() {
             round: AtomicUsize::new(0),
             done: AtomicBool::new(false),
             cancel_issued: AtomicBool::new(false),
+            cancel_done: AtomicBool::new(false),
             unparks: (0..np + 2).map(|_| AtomicUsize::new(0)).collect(),
             gens: (0..np + 2).map(|_| AtomicUsize::new(0)).collect(),
             blk: (0..np + 2).map(|_| Mutex::new(None)).collect(),
@@ -337,9 +339,10 @@ fn main() {
                 }
                 delay(false, dly);
                 let h = s2.co.lock().unwrap().clone().expect("parker handle");
+                s2.cancel_issued.store(true, Ordering::SeqCst);
                 c.log("cancel.call", 0, c.now(), None);
                 unsafe { h.cancel() };
-                s2.cancel_issued.store(true, Ordering::SeqCst);
+                s2.cancel_done.store(true, Ordering::SeqCst);
                 c.log("cancel.ret", 0, c.now(), None);
             }));
         }
